@@ -531,6 +531,11 @@ class _FuncAnalysis:
         # derived slices: Y = X[a:] / X[a:b]  (single assignment, looked up in the function)
         if depth < 3 and text.isidentifier():
             defs = [n for n in walk_local(self.fi.node) if isinstance(n, ast.Assign) and len(n.targets) == 1 and isinstance(n.targets[0], ast.Name) and n.targets[0].id == text]
+            if len(defs) == 1 and self.is_validated_payload(defs[0].value) and self.ctx is not None:
+                pl = self.repo.const(self.ctx, "payload_length")
+                pt = self.repo.class_attr_expr(self.ctx, "payload_type")
+                if isinstance(pl, int) and pt is not None:
+                    lb = max(lb, pl if ast.unparse(pt[0]) == "DPTArray" else 1)
             if len(defs) == 1 and isinstance(defs[0].value, ast.Subscript) and isinstance(defs[0].value.slice, ast.Slice):
                 sl = defs[0].value.slice
                 lo = self.repo.fold(sl.lower, self.mod, self.ctx) if sl.lower is not None else 0
@@ -543,6 +548,17 @@ class _FuncAnalysis:
                         if isinstance(hi, int) and hi >= 0:
                             lb = max(lb, min(hi, base_lb) - lo)
         return lb
+
+    def is_validated_payload(self, v: ast.AST) -> bool:
+        """`cls.validate_payload(payload)`: returns a tuple of exactly payload_length octets (DPTArray) or one value
+        below 2**payload_length (DPTBinary) — contract checked by C07 on DPTBase.validate_payload itself."""
+        return isinstance(v, ast.Call) and isinstance(v.func, ast.Attribute) and v.func.attr == "validate_payload" and isinstance(v.func.value, ast.Name) and v.func.value.id in ("cls", "self")
+
+    def from_validated_payload(self, e: ast.AST) -> bool:
+        if isinstance(e, ast.Name):
+            defs = [n for n in walk_local(self.fi.node) if isinstance(n, ast.Assign) and len(n.targets) == 1 and isinstance(n.targets[0], ast.Name) and n.targets[0].id == e.id]
+            return len(defs) == 1 and self.is_validated_payload(defs[0].value)
+        return self.is_validated_payload(e)
 
     def fold_atom(self, atom: str) -> str:
         """Rewrite `len(x) <op> NAME` with NAME folded to its constant (class/module constants)."""
@@ -624,11 +640,17 @@ class _FuncAnalysis:
                     return self.site([("IndexError", "tuple index")], report, f"static type {bt}")
             need = idx + 1 if idx >= 0 else -idx
             lb = self.len_lower_bound(base_text, e, local)
+            if self.is_validated_payload(e.value) and self.ctx is not None:
+                pl = self.repo.const(self.ctx, "payload_length")
+                pt = self.repo.class_attr_expr(self.ctx, "payload_type")
+                if isinstance(pl, int) and pt is not None:
+                    lb = max(lb, pl if ast.unparse(pt[0]) == "DPTArray" else 1)
             if lb >= need:
                 return self.site([("IndexError", "sequence index")], report, f"len({base_text}) >= {lb} proven by a dominating guard")
-            if isinstance(e.value, ast.Call) and call_name(e.value) == "struct.unpack" and e.value.args and isinstance(e.value.args[0], ast.Constant):
+            fmt0 = self.repo.fold(e.value.args[0], self.mod, self.ctx) if isinstance(e.value, ast.Call) and call_name(e.value) == "struct.unpack" and e.value.args else None
+            if isinstance(fmt0, str):
                 try:
-                    n = len(struct.unpack(e.value.args[0].value, bytes(struct.calcsize(e.value.args[0].value))))
+                    n = len(struct.unpack(fmt0, bytes(struct.calcsize(fmt0))))
                     if -n <= idx < n:
                         return self.site([("IndexError", "index into struct.unpack result")], report, "struct format arity")
                 except struct.error:
@@ -740,8 +762,19 @@ class _FuncAnalysis:
                         if f.attr in sub.methods:
                             res |= set(self.mr.escapes(sub.methods[f.attr], sub))
                     return out | res
+                # class attribute holding a class (e.g. `data_type = HVACMode`): constructor call
+                ci = self.class_valued_attr(f.attr)
+                if ci is not None:
+                    return out | self.construct(ci, c, local)
                 # attribute holding a callable / object
                 return out | self.unresolved(c, name)
+            # cls.<class-valued attr>.method(...)
+            if isinstance(base, ast.Attribute) and isinstance(base.value, ast.Name) and base.value.id in ("self", "cls") and self.ctx is not None:
+                ci = self.class_valued_attr(base.attr)
+                if ci is not None:
+                    m = self.repo.lookup_method(ci, f.attr)
+                    if m is not None:
+                        return out | set(self.mr.escapes(m, ci, self.bind_kinds(c, m, True)))
             # Class.m() / module.func()
             tgt = self.repo.resolve_expr(self.mod, base)
             if isinstance(tgt, ClassInfo):
@@ -782,6 +815,15 @@ class _FuncAnalysis:
                     return out | res
             return out | self.external_call(name, f.attr, bt, c, local)
         return out | self.unresolved(c, name)
+
+    def class_valued_attr(self, attr: str) -> ClassInfo | None:
+        if self.ctx is None:
+            return None
+        hit = self.repo.class_attr_expr(self.ctx, attr)
+        if hit is None:
+            return None
+        tgt = self.repo.resolve_expr(hit[1].module, hit[0])
+        return tgt if isinstance(tgt, ClassInfo) else None
 
     def unresolved(self, c: ast.Call, name: str) -> set[Esc]:
         self.mr.unresolved[f"{self.fi.qualname}: {name}"] = self.mr.unresolved.get(f"{self.fi.qualname}: {name}", 0) + 1
@@ -837,6 +879,12 @@ class _FuncAnalysis:
                 if r is not None and isinstance(k, int) and k >= 0:
                     return (r[0] >> k, r[1] >> k)
         if isinstance(e, ast.Subscript) and not isinstance(e.slice, ast.Slice):
+            if self.from_validated_payload(e.value):
+                pt = self.repo.class_attr_expr(self.ctx, "payload_type") if self.ctx is not None else None
+                pl = self.repo.const(self.ctx, "payload_length") if self.ctx is not None else None
+                if pt is not None and ast.unparse(pt[0]) == "DPTBinary" and isinstance(pl, int):
+                    return (0, 2 ** pl - 1)
+                return (0, 255)
             bt = self.typ(e.value)
             if kinds(bt) and kinds(bt) <= {"bytes", "bytearray"}:
                 return (0, 255)
@@ -889,6 +937,9 @@ class _FuncAnalysis:
                 return set() if isinstance(v, int) and v >= 0 else self.site([("ValueError", "bytes(negative int)")], c, None)
             # iterable of ints: every element must be an octet
             a0 = c.args[0]
+            gen_ok = isinstance(a0, (ast.GeneratorExp, ast.ListComp)) and len(a0.generators) == 1 and isinstance(a0.generators[0].target, ast.Name) and isinstance(a0.elt, ast.Name) and a0.elt.id == a0.generators[0].target.id and self.from_validated_payload(a0.generators[0].iter)
+            if gen_ok or self.from_validated_payload(a0) or (isinstance(a0, ast.Subscript) and isinstance(a0.slice, ast.Slice) and self.from_validated_payload(a0.value)):
+                return self.site([("ValueError", "bytes(iterable)")], c, "octets of a validated payload (input assumption: DPTArray elements are octets)")
             elts = a0.elts if isinstance(a0, (ast.List, ast.Tuple)) else None
             if elts is not None:
                 rngs = [self.int_range(x, local) for x in elts]
@@ -1063,6 +1114,10 @@ class _FuncAnalysis:
         except struct.error:
             return None
         a = c.args[1]
+        if isinstance(a, ast.Call) and call_name(a) in ("bytes", "bytearray") and a.args and self.from_validated_payload(a.args[0]) and self.ctx is not None:
+            pl = self.repo.const(self.ctx, "payload_length")
+            if pl == size:
+                return f"validated payload of payload_length {pl} == calcsize({fmt!r})"
         if isinstance(a, ast.Subscript) and isinstance(a.slice, ast.Slice) and a.slice.step is None:
             lo = self.repo.fold(a.slice.lower, self.mod, self.ctx) if a.slice.lower is not None else 0
             hi = self.repo.fold(a.slice.upper, self.mod, self.ctx) if a.slice.upper is not None else None
